@@ -1071,12 +1071,13 @@ def probe_purity(spec):
         elif kind == 'Psk':
             # a set-up that leaves the balance of one node out (skip_nodes): part of the history only, later set-ups must not depend on it
             gi = st['g']
+            # (as for 'P': the grid handed over counts as the grid set previously, whether or not the set-up went through)
+            last_pgrid = gi
+            for k in range(len(portf.assets)):
+                agrid[k] = gi
+                ahow[k] = 'setup'
             try:
                 portf.setup_optim_problem(prices(gi, 0), G[gi], skip_nodes=[list(portf.nodes.keys())[st.get('k', 0) % max(len(portf.nodes), 1)]])
-                last_pgrid = gi
-                for k in range(len(portf.assets)):
-                    agrid[k] = gi
-                    ahow[k] = 'setup'
             except Exception as e:
                 rec['error'] = repr(e)[:200]
         elif kind == 'Pn':
